@@ -82,21 +82,14 @@ Proof.
 Qed.
 Print Assumptions C08_reduce_all_axes_eq_none.
 
-(* accumulate along a non-negative axis: source shape, element idx = running left fold of
-   a[.., 0..idx_axis, ..] (seeded by the first element) *)
-Theorem C08_accumulate_on_domain : forall (A : Type) (f : A -> A -> A) (a : list Z -> A) s axis idx,
-  0 <= axis < zlen s -> inb idx s ->
-  accumulate_at f a axis idx = accumulate_spec f a (zlen s) axis idx.
+(* accumulate along any valid axis, written with either sign (the view wraps a negative axis with
+   index::wrap_axis): source shape, element idx = running left fold of a[.., 0..idx_axis, ..]
+   (seeded by the first element) *)
+Theorem C08_accumulate : forall (A : Type) (f : A -> A -> A) (a : list Z -> A) s axis idx,
+  - zlen s <= axis < zlen s -> inb idx s ->
+  accumulate_at f a (zlen s) axis idx = accumulate_spec f a (zlen s) axis idx.
 Proof. exact accumulate_at_spec. Qed.
-Print Assumptions C08_accumulate_on_domain.
-
-(* ... but a valid NEGATIVE axis is not normalised: the view returns its input (finding) *)
-Theorem C08_accumulate_negative_axis_refuted :
-  exists (s : list Z) (a : list Z -> Z) axis idx,
-    pos s /\ - zlen s <= axis < 0 /\ inb idx s /\
-    accumulate_at Z.add a axis idx <> accumulate_spec Z.add a (zlen s) axis idx.
-Proof. exact accumulate_negative_axis_refuted. Qed.
-Print Assumptions C08_accumulate_negative_axis_refuted.
+Print Assumptions C08_accumulate.
 
 (* sum / prod / amax / amin are the instances f = +, *, max, min *)
 Theorem C08_sum_prod_amax_amin : forall (a : list Z -> Z) s ax keepdims init idx,
@@ -132,9 +125,10 @@ Example C08_nonvacuous_reduce :
   /\ reduce_at Z.sub (iota [2; 3; 2]) [2; 3; 2] (AxInt 1) false None [1; 1] = Some (7 - 9 - 11).
 Proof. repeat split; try reflexivity. repeat constructor; lia. Qed.
 Example C08_nonvacuous_accumulate :
-  accumulate_at Z.sub (iota [2; 3]) 1 [1; 2] = Some (3 - 4 - 5)
+  accumulate_at Z.sub (iota [2; 3]) 2 1 [1; 2] = Some (3 - 4 - 5)
+  /\ accumulate_at Z.sub (iota [2; 3]) 2 (-1) [1; 2] = Some (3 - 4 - 5)
   /\ accumulate_spec Z.sub (iota [2; 3]) 2 (-1) [1; 2] = Some (3 - 4 - 5)
-  /\ accumulate_at Z.sub (iota [2; 3]) (-1) [1; 2] = Some 5.
+  /\ accumulate_at Z.sub (iota [2; 3]) 2 (-2) [1; 2] = Some (2 - 5).
 Proof. repeat split; reflexivity. Qed.
 Example C08_nonvacuous_all_axes :
   axes_ok 2 (AxList [1; -2]) = true /\ red_mask 2 (AxList [1; -2]) = red_mask 2 AxNone
